@@ -303,6 +303,14 @@ def config_reports(model, rep, r):
             text = s.value if isinstance(s, ast.Constant) else (s.func.value.value if isinstance(s, ast.Call) and isinstance(s.func, ast.Attribute) and isinstance(s.func.value, ast.Constant) else None)
             if text is not None:
                 hdr[text] = x.value.id
+    # a report whose columns are filed under computed titles / from computed lists (a table of columns walked in a loop) is not laid out
+    # column by column: the pairing below cannot be read off it
+    for x in ast.walk(fn):
+        if isinstance(x, ast.Assign) and isinstance(x.targets[0], ast.Subscript) and is_name(x.targets[0].value, RES):
+            s = x.targets[0].slice
+            const_title = isinstance(s, ast.Constant) or (isinstance(s, ast.Call) and isinstance(s.func, ast.Attribute) and isinstance(s.func.value, ast.Constant))
+            if not const_title or not isinstance(x.value, (ast.Name, ast.List, ast.BinOp)):
+                raise AnalysisError("_pars_and_limits: a result column is filed as %s: the report is not laid out column by column" % ast.unparse(x)[:70])
     ok = True
     seen_p, seen_l = set(), set()
     for text, var in hdr.items():
